@@ -41,6 +41,8 @@ def run(prog, chk):
     chk.rule(geomalg.check_sites, prog, chk, "C13")
     chk.rule(geomalg.check_float_truncation, prog, chk)  # no float is cut down to an integer on the way (a truncated distance / coordinate makes different candidates tie)
     chk.rule(geomalg.check, prog, chk, "C13", floor=30)
+    from props import C04 as _C04
+    chk.rule(_C04.consumed, prog, chk)  # start / end are consumed by the connector code only: a rewrite that removes them first turns a connector into a plain line
 
 
 def _lit(body, t, i):
